@@ -368,7 +368,7 @@ def parse_out(text):
         if line.startswith("# "):
             cur = []
             res[line[2:].strip()] = cur
-        elif cur is not None and line:
+        elif cur is not None and line and not line.startswith("[watchdog"):
             cur.append(line)
     return res
 
@@ -384,7 +384,7 @@ DHP_SETTINGS = ["", "4", "64"]
 
 
 WATCHDOG_S = 90        # a whole sequence file takes a few seconds; a hang (e.g. a cycle in a list) is killed
-WATCHDOG_MIN_S = 15     # one sequence during minimisation
+WATCHDOG_MIN_S = 4      # one sequence during minimisation
 
 
 def run_variant(v, path, hp="", dhp="", timeout=WATCHDOG_S):
@@ -474,11 +474,8 @@ class Runner:
             write_seqs(path, kind, cfg, seqs)
         rc, out = run_variant(v, path, hp, dhp, timeout or (WATCHDOG_S * (4 if len(seqs) > 5000 else 1)))
         observed = parse_out(out)
-        if rc == 124:
-            # the sequence being executed when the watchdog fired has incomplete output: drop it so that it is reported as hanging
-            done = [sid for sid, _, _ in seqs if sid in observed]
-            if done and not (observed[done[-1]] and observed[done[-1]][-1].startswith("end")):
-                del observed[done[-1]]
+        # (the harness prints a sequence only when it is complete and flushes: after a watchdog kill the first
+        #  sequence without output is the one that hangs)
         if kind == "S":
             mseqs = seg_model_input(seqs, observed)
             mpath = path + ".model-%s" % hashlib.sha256(v["name"].encode()).hexdigest()[:8]
